@@ -321,6 +321,17 @@ func (fx *fnExec) assignsCheck(st *state, a *addr, in ssa.Instruction, pos token
 			arrs = append(arrs, arr)
 		}
 		idx = a.ref
+		if n := namedOf(a.base); n != nil && n.Obj().Pkg() != nil && n.Obj().Parent() != n.Obj().Pkg().Scope() && !strings.HasPrefix(idx, "new!") {
+			// whole-struct store to an instance of a function-private struct type (see aField)
+			before := len(fx.obls)
+			for _, arr := range arrs {
+				fx.assignsObl(arr, idx, in, pos)
+			}
+			for _, o := range fx.obls[before:] {
+				o.NewField = true
+			}
+			return
+		}
 	}
 	if strings.HasPrefix(idx, "new!") {
 		return
